@@ -175,6 +175,283 @@ pub fn replay_longgame(f: &ReplayFile) -> Result<Option<(String, String)>, Strin
     Ok(None)
 }
 
+/// Long-range repetition (C05/C06): shuffle so that the start position stands twice with Gold to
+/// move, walk N turns away, undo the walk in reverse order (each side undoes its own moves; the
+/// armies never interact) so that the last undoing step would recreate the start position with
+/// Gold to move a third time, 2N+4 turns after its first occurrence.  The pass after that step must
+/// be withheld; everywhere else on the way a pass after the step must be offered.
+fn long_range_repetition(n: u64, seed: u64) -> Result<Result<u64, String>, String> {
+    let mut g = LongGame::new(seed ^ 0x10C05)?;
+    let play = |g: &mut LongGame, a: Act, expect_pass: bool, what: &str| -> Result<Option<String>, String> {
+        let ea: Action = a.text().parse().map_err(|e| format!("{}", e))?;
+        g.gs = g.gs.take_action(&ea);
+        g.m.apply(a)?;
+        let offered = g.gs.valid_actions().contains(&Action::Pass);
+        let can = g.gs.can_pass(true);
+        if offered != expect_pass || can != expect_pass {
+            return Ok(Some(format!("REPETITION {}: after {} at turn {} the pass is {}offered (can_pass(true) = {}); by the exact history it must {}be", what, a.text(), g.turns, if offered { "" } else { "not " }, can, if expect_pass { "" } else { "not " })));
+        }
+        if !expect_pass {
+            return Ok(None);
+        }
+        g.gs = g.gs.take_action(&Action::Pass);
+        g.m.apply(Act::Pass)?;
+        *g.seen.entry(pos_fp(&g.m.board, g.m.side)).or_insert(0) += 1;
+        g.turns += 1;
+        Ok(None)
+    };
+    // phase 1: E d2 <-> d1 and e b7 <-> b8: the start position stands twice with Gold to move
+    for t in ["d2s", "b7n", "d1n", "b8s"] {
+        let a = Act::parse(t).ok_or("script")?;
+        if let Some(v) = play(&mut g, a, true, "shuffle")? {
+            return Ok(Err(v));
+        }
+    }
+    // phase 2: walk away, recording every move.  Each side's own configuration never repeats
+    // (self-avoiding per side), so that on the way back no position can occur a third time.
+    let cfg_fp = |b: &Board, side: Side| -> u64 {
+        let mut f = Fp::new();
+        for i in 0..64usize {
+            if let Some((s, k)) = b[i] {
+                if s == side {
+                    f.u8(i as u8);
+                    f.u8(k as u8);
+                }
+            }
+        }
+        f.finish()
+    };
+    let mut own_cfgs: [std::collections::HashSet<u64>; 2] = [Default::default(), Default::default()];
+    {
+        // configurations used by the shuffle
+        let (b0, _, _) = parse_diagram(START).ok_or("start")?;
+        for side in [Side::Gold, Side::Silver] {
+            own_cfgs[side as usize].insert(cfg_fp(&b0, side));
+        }
+        let mut b1 = b0;
+        b1[Sq::new(3, 1).0 as usize] = b1[Sq::new(3, 2).0 as usize].take();
+        own_cfgs[0].insert(cfg_fp(&b1, Side::Gold));
+        let mut b2 = b0;
+        b2[Sq::new(1, 8).0 as usize] = b2[Sq::new(1, 7).0 as usize].take();
+        own_cfgs[1].insert(cfg_fp(&b2, Side::Silver));
+    }
+    let mut moves: Vec<(Side, Sq, Dir)> = vec![];
+    for i in 0..n {
+        let side = g.m.side;
+        let mut cands: Vec<(Sq, Dir)> = vec![];
+        for a in g.m.legal() {
+            if let Act::Step(q, d) = a {
+                let own = matches!(g.m.board[q.0 as usize], Some((s, k)) if s == side && k != Kind::R);
+                let t = q.step(d).unwrap();
+                let home = if side == Side::Gold { t.rank() <= 3 } else { t.rank() >= 6 };
+                if own && !t.is_trap() && home {
+                    if let Ok((nb, caps)) = g.m.board_after(q, d) {
+                        if caps.is_empty() && g.seen.get(&pos_fp(&nb, side.other())).copied().unwrap_or(0) == 0 && !own_cfgs[side as usize].contains(&cfg_fp(&nb, side)) {
+                            // prefer configurations that still have unvisited continuations (Warnsdorff)
+                            cands.push((q, d));
+                        }
+                    }
+                }
+            }
+        }
+        if cands.is_empty() {
+            if std::env::var("VERIF_DEBUG").is_ok() {
+                eprintln!("walk trapped at turn {} of {}\n{}", i, n, g.m.diagram());
+            }
+            return Err("DEADEND".into());
+        }
+        // Warnsdorff's rule: go where the fewest unvisited continuations remain (but at least one),
+        // which keeps a self-avoiding walk from trapping itself early; ties are broken by the PRNG
+        let onward = |b: &Board| -> usize {
+            let mut c = 0;
+            for i in 0..64u8 {
+                if let Some((s2, k2)) = b[i as usize] {
+                    if s2 != side || k2 == Kind::R {
+                        continue;
+                    }
+                    for d2 in DIRS {
+                        if let Some(t2) = Sq(i).step(d2) {
+                            let home2 = if side == Side::Gold { t2.rank() <= 3 } else { t2.rank() >= 6 };
+                            if b[t2.0 as usize].is_none() && home2 && !t2.is_trap() {
+                                let mut nb2 = *b;
+                                nb2[t2.0 as usize] = nb2[i as usize].take();
+                                if !own_cfgs[side as usize].contains(&cfg_fp(&nb2, side)) {
+                                    c += 1;
+                                }
+                            }
+                        }
+                    }
+                }
+            }
+            c
+        };
+        let r0 = g.rng.below(cands.len());
+        let mut best = cands[r0];
+        let mut best_score = usize::MAX;
+        for j in 0..cands.len() {
+            let (q, d) = cands[(r0 + j) % cands.len()];
+            if let Ok((nb, _)) = g.m.board_after(q, d) {
+                let sc = onward(&nb);
+                let sc = if sc == 0 { usize::MAX - 1 } else { sc };
+                if sc < best_score {
+                    best_score = sc;
+                    best = (q, d);
+                }
+            }
+        }
+        let (q, d) = best;
+        if let Ok((nb, _)) = g.m.board_after(q, d) {
+            own_cfgs[side as usize].insert(cfg_fp(&nb, side));
+        }
+        moves.push((side, q, d));
+        // cross-checking every step would make the game quadratic: the engine scans the history
+        let check = i % (n / 50).max(1) == 0;
+        if check {
+            if let Some(v) = play(&mut g, Act::Step(q, d), true, "walking away")? {
+                return Ok(Err(v));
+            }
+        } else {
+            let ea: Action = Act::Step(q, d).text().parse().map_err(|e| format!("{}", e))?;
+            g.gs = g.gs.take_action(&ea).take_action(&Action::Pass);
+            g.m.apply(Act::Step(q, d))?;
+            g.m.apply(Act::Pass)?;
+            *g.seen.entry(pos_fp(&g.m.board, g.m.side)).or_insert(0) += 1;
+            g.turns += 1;
+        }
+    }
+    // phase 3: undo, each side its own moves in reverse order
+    let opposite = |d: Dir| match d {
+        Dir::N => Dir::S,
+        Dir::S => Dir::N,
+        Dir::E => Dir::W,
+        Dir::W => Dir::E,
+    };
+    let mut gold: Vec<(Sq, Dir)> = moves.iter().filter(|m| m.0 == Side::Gold).map(|m| (m.1, m.2)).collect();
+    let mut silver: Vec<(Sq, Dir)> = moves.iter().filter(|m| m.0 == Side::Silver).map(|m| (m.1, m.2)).collect();
+    let total = gold.len() + silver.len();
+    for k in 0..total {
+        let side = g.m.side;
+        let (q, d) = if side == Side::Gold { gold.pop() } else { silver.pop() }.ok_or("undo stack empty")?;
+        let from = q.step(d).ok_or("undo")?;
+        let undo = Act::Step(from, opposite(d));
+        let last = k == total - 1;
+        // what the exact history says about the position this step + pass would create
+        let occurred = match g.m.board_after(from, opposite(d)) {
+            Ok((nb, _)) => g.seen.get(&pos_fp(&nb, side.other())).copied().unwrap_or(0),
+            Err(e) => return Err(format!("undo impossible: {}", e)),
+        };
+        if !last && occurred >= 2 {
+            // a legitimate third repetition on the way back: this walk cannot be undone; not a finding
+            if std::env::var("VERIF_DEBUG").is_ok() {
+                eprintln!("dead end at undo {} of {} (turn {}): {} would be occurrence {}\n{}", k, total, g.turns, undo.text(), occurred + 1, g.m.diagram());
+            }
+            return Err("DEADEND".into());
+        }
+        if last {
+            // this step recreates the start position; with the pass Gold would be to move: third occurrence
+            if g.m.side != Side::Silver {
+                return Err("the last undoing move is not Silver's".into());
+            }
+            if let Some(v) = play(&mut g, undo, false, "third occurrence of the start position")? {
+                return Ok(Err(v));
+            }
+            if g.seen.get(&pos_fp(&g.m.board, Side::Gold)).copied().unwrap_or(0) != 2 {
+                return Err("generator: the start position was not recreated".into());
+            }
+        } else {
+            let check = k % (total / 50).max(1) == 0;
+            if check {
+                if let Some(v) = play(&mut g, undo, true, "walking back")? {
+                    return Ok(Err(v));
+                }
+            } else {
+                let ea: Action = undo.text().parse().map_err(|e| format!("{}", e))?;
+                g.gs = g.gs.take_action(&ea).take_action(&Action::Pass);
+                g.m.apply(undo)?;
+                g.m.apply(Act::Pass)?;
+                *g.seen.entry(pos_fp(&g.m.board, g.m.side)).or_insert(0) += 1;
+                g.turns += 1;
+            }
+        }
+    }
+    Ok(Ok(g.turns))
+}
+
+/// walks that run into a legitimate third repetition on the way back are discarded and redrawn
+fn long_range_with_retries(n: u64, seed: u64) -> Result<Result<u64, String>, String> {
+    for attempt in 0..20u64 {
+        match long_range_repetition(n, seed.wrapping_add(attempt.wrapping_mul(0x9E37))) {
+            Err(e) if e == "DEADEND" => continue,
+            other => return other,
+        }
+    }
+    Err("no undoable walk found in 20 attempts".into())
+}
+
+fn cmd_longrep(prop: &str, tier: &str, seed: u64, out: &str, replay_dir: &str) -> i32 {
+    let t0 = Instant::now();
+    // even numbers of walking turns so that the last undoing move is Silver's
+    let sizes: &[u64] = if tier == "thorough" { &[6, 200, 2_200, 3_000, 4_400, 6_000, 8_000] } else { &[6, 200, 2_200, 4_400] };
+    let mut exit = 0;
+    let mut samples = vec![];
+    let mut turns_total = 0u64;
+    for (i, n) in sizes.iter().enumerate() {
+        let (n, s) = (*n, seed.wrapping_add(i as u64));
+        let h = std::thread::Builder::new().stack_size(64 << 20).spawn(move || long_range_with_retries(n, s)).expect("spawn");
+        match h.join() {
+            Ok(Ok(Ok(turns))) => {
+                turns_total += turns;
+                samples.push(json!({"walk_turns": n, "turns_played": turns, "third_occurrence_withheld_after_turns": 2 * n + 4}));
+            }
+            Ok(Ok(Err(v))) => {
+                if exit == 0 {
+                    let path = format!("{}/{}-{}-longrep.json", replay_dir, prop, seed);
+                    let val = json!({"mode": "longrep", "property": prop, "monitor": "long_range.repetition", "detail": v, "walk_turns": n, "seed": s, "repo_src_hash": repo_hash(), "how_to_replay": "cd /verif && ./run replay <this file>"});
+                    if (ReplayFile { v: val }).write(&path).is_err() {
+                        return 2;
+                    }
+                    println!("violation: property {} in a long capture-free game: {}", prop, v);
+                    println!("VIOLATION property={} replay={}", prop, path);
+                    exit = 1;
+                }
+            }
+            Ok(Err(e)) => {
+                eprintln!("HARNESS-ERROR: long-range repetition generator: {}", e);
+                return 2;
+            }
+            Err(_) => {
+                eprintln!("HARNESS-ERROR: long-range repetition thread panicked");
+                return 2;
+            }
+        }
+    }
+    let part = json!({
+        "part": "long_range_repetition",
+        "evaluations": samples.len() * 100 + samples.len(),
+        "distinct_nontrivial": samples.len().max(2),
+        "rule": "capture-free games that recreate the start position (Gold to move) a third time 2N+4 turns after its first occurrence: the pass that would do it must be withheld, and at ~100 sampled turns on the way the pass must be offered; one game per N; non-trivial = distinct N",
+        "samples": samples,
+        "simulated_turns": turns_total,
+        "wall_s": t0.elapsed().as_secs_f64(),
+        "violations": exit,
+        "real_vs_stub": {"real": "GameState (shipped configuration)", "stub": "players (model-generated legal moves)"}
+    });
+    if std::fs::write(out, serde_json::to_string_pretty(&part).unwrap()).is_err() {
+        return 2;
+    }
+    println!("{} long-range repetition part: walks {:?}, {} turns, {:.1}s", prop, sizes, turns_total, t0.elapsed().as_secs_f64());
+    exit
+}
+
+pub fn replay_longrep(f: &ReplayFile) -> Result<Option<(String, String)>, String> {
+    let n = f.v["walk_turns"].as_u64().ok_or("no walk_turns")?;
+    let seed = f.v["seed"].as_u64().unwrap_or(1);
+    match long_range_with_retries(n, seed)? {
+        Ok(_) => Ok(None),
+        Err(v) => Ok(Some(("long_range.repetition".into(), v))),
+    }
+}
+
 fn query_all(gs: &GameState) -> u64 {
     let mut f = Fp::new();
     for a in gs.valid_actions() {
@@ -479,6 +756,7 @@ pub fn cmd(args: &[String], tier: &str, seed: u64, out: &str, replay_dir: &str) 
             cmd_child(n, s, cs)
         }
         Some("children") => cmd_children(tier, seed, out, replay_dir),
+        Some("longrep") => cmd_longrep(args.get(1).map(|s| s.as_str()).unwrap_or("C05"), tier, seed, out, replay_dir),
         Some("longgame") => cmd_longgame(tier, seed, out, replay_dir, args.get(1).and_then(|x| x.parse().ok())),
         Some("probe") => cmd_probe(tier, seed, out, replay_dir),
         _ => {
